@@ -20,6 +20,17 @@ strengthened = {
  "C12-3": "missed at first: uses were only generated at top level; uses inside quotes/lists with labels that start or end with a line ending added",
  "C14-3": "missed at first: no input started with U+FEFF; fragment added",
  "C13-4": "missed at first: the hard-break shape predicate accepted a bare backslash; tightened to backslash + line ending as the property states",
+ "C04-5": "missed at first: no run of exactly 32 backticks; enumerated check run_lengths added (37 units x 14 templates x every length 1..140 and around 256/512/999/1024; thorough to 1100)",
+ "C04-6": "missed at first: no walk was ever cut short; the pipeline now aborts walks by Pre/Post at several ordinals and then formats, renders and walks again",
+ "C06-6": "missed at first by C06 (caught by C12): the model's labels were unique; competing definitions (also in another case, inside quotes) and definitions that follow their uses added to the model",
+ "C07-6": "missed at first by C07 and C08 (caught by C01): no long document of many root blocks; gen.LongDoc added, C08 check long_documents and a streaming entry with incremental rewriting in C07 (check streamed_long)",
+ "C08-6": "missed at first: long inputs were mostly one huge block; check long_documents (20-120 KB, hundreds of root blocks, full-size reads, blocks held to the end) added",
+ "C09-5": "missed at first by C09 (caught by C12): competing definitions at different depths with a use were too rare; checks quote_refs / list_refs (gen.RefsDoc) added",
+ "C09-6": "missed at first: no multi-line label next to 999 characters inside a container; checks quote_long_labels / list_long_labels (gen.LongLabelDoc) and C06 boundary documents with such labels in containers added",
+ "C16-6": "missed at first by C16 (caught by C08): blocks were re-read with one Read; re-parse now also goes through one-byte, one-line-ending and 7-byte readers",
+ "C18-5": "missed at first: trees were never deeper than 16 frames; gen.Deep (up to 48 nested containers, 40 nested inlines, 150 siblings) is one case in five",
+ "C18-6": "missed at first: ChildCount and Child were always supplied together; views with only one of them added",
+ "C20-5": "missed at first: literal text never looked like an entity; syntax-looking literal words (&amp; <b> *a* [x](y) 1. ...) added to the document model (C06 and C20)",
  "C19-4": "missed at first: batches had no long destination that needs percent-encoding; rare-path constructs added to every batch",
 }
 rows = []
